@@ -333,6 +333,66 @@ pub fn run(ctx: &Ctx) -> ! {
     }
     per_generator.insert("c-document-shapes".into(), json!({"documents": tally.parsed.load(Ordering::Relaxed) - before}));
 
+    // (d) operand-type space and the general query space (S-verif): frontend panics only
+    let uni = Universe { datasets: vec![], ..Universe::sverif() };
+    let sm = &uni.world.schema;
+    let cfg_e1 = qgen::GenCfg { allow: Some(vec!["E"]), e_names: Some(vec!["next", "one"]), e_contents: vec![0], recurse_depths: vec![2], naming_devs: false, ..Default::default() };
+    let mut seeds: Vec<qast::Query> = vec![qgen::skeleton()];
+    seeds.extend(qgen::enumerate(sm, &[qgen::skeleton()], 1, &cfg_e1).into_iter().skip(1).flatten());
+    let mut cfg3 = CorpusCfg::new(1);
+    cfg3.seeds = seeds;
+    cfg3.gen = qgen::GenCfg { allow: Some(vec!["Pf", "Pt", "Fcf", "Fct"]), full_menus: true, naming_devs: false, ..Default::default() };
+    cfg3.max_arg_maps = 0;
+    cfg3.ir_var_types_fallback = true;
+    let on_panic = |text: &str, p: &crate::common::PanicRec| {
+        tally.panics.fetch_add(1, Ordering::Relaxed);
+        ctx.fail(&p.key(), &format!("frontend panicked: {}", p.message.lines().next().unwrap_or("")), json!({"schema_id": "S-verif", "query_text": text, "generator": "enumerated-query-space", "observed": p.to_json(), "expected": "Ok or a typed error"}));
+    };
+    let s_ops = corpus::drive(ctx, &uni, &cfg3, &|_| {}, &|_| {}, &on_panic);
+    let mut cfg4 = CorpusCfg::new(ctx.tier.pick(2, 3));
+    cfg4.gen.wide_filters = true;
+    cfg4.max_arg_maps = 0;
+    let s_gen = corpus::drive(ctx, &uni, &cfg4, &|_| {}, &|_| {}, &on_panic);
+    // error paths: valid structure (two edges + up to two further deviations) with one or two
+    // invalidating deviations (name collisions, ill-typed filter, undefined tag, unknown property)
+    // placed before / between / after it
+    // seeds: two-edge structures + one tag / count deviation (valid); then exactly one invalidating deviation
+    let base5 = corpus::structures_cfg(&uni, 1, vec!["Pt", "Fct", "Fco"], 2);
+    let seeds5: Vec<qast::Query> = qgen::enumerate(sm, &base5.seeds, 1, &base5.gen).into_iter().flatten().collect();
+    let mut cfg5 = CorpusCfg::new(1);
+    cfg5.seeds = seeds5;
+    cfg5.gen = qgen::GenCfg { allow: Some(vec![]), invalid_devs: true, naming_devs: false, ..Default::default() };
+    cfg5.max_arg_maps = 0;
+    let s_inv = corpus::drive(ctx, &uni, &cfg5, &|_| {}, &|_| {}, &on_panic);
+    let mut cfg6 = CorpusCfg::new(ctx.tier.pick(2, 3));
+    cfg6.gen.invalid_devs = true;
+    cfg6.gen.naming_devs = false;
+    cfg6.max_arg_maps = 0;
+    cfg6.keep = Some(std::sync::Arc::new(|q: &qast::Query| {
+        let t = q.text();
+        t.contains("undefined_tag") || t.contains("nope") || t.contains("$bad") || {
+            // a duplicated explicit name
+            let mut names: Vec<&str> = t.split("(name: \"").skip(1).filter_map(|x| x.split('"').next()).collect();
+            let n = names.len();
+            names.sort();
+            names.dedup();
+            names.len() < n
+        }
+    }));
+    let s_inv2 = corpus::drive(ctx, &uni, &cfg6, &|_| {}, &|_| {}, &on_panic);
+    tally.parsed.fetch_add(s_inv.queries_done + s_inv2.queries_done, Ordering::Relaxed);
+    tally.ok.fetch_add(s_inv.compiled + s_inv2.compiled, Ordering::Relaxed);
+    tally.err.fetch_add(s_inv.rejected + s_inv2.rejected, Ordering::Relaxed);
+    per_generator.insert("e-invalidated-structures".into(), s_inv.to_json());
+    per_generator.insert("e-invalidated-general-space".into(), s_inv2.to_json());
+    capped |= s_inv.capped || s_inv2.capped;
+    tally.parsed.fetch_add(s_ops.queries_done + s_gen.queries_done, Ordering::Relaxed);
+    tally.ok.fetch_add(s_ops.compiled + s_gen.compiled, Ordering::Relaxed);
+    tally.err.fetch_add(s_ops.rejected + s_gen.rejected, Ordering::Relaxed);
+    per_generator.insert("d-operand-type-space".into(), s_ops.to_json());
+    per_generator.insert("d-general-query-space".into(), s_gen.to_json());
+    capped |= s_ops.capped || s_gen.capped;
+
     // (b) directive sequences
     let dmenu = directive_menu();
     let dmax = ctx.tier.pick(3usize, 4usize);
@@ -401,66 +461,6 @@ pub fn run(ctx: &Ctx) -> ! {
         completed_l = len;
     }
     per_generator.insert("a-token-sequences".into(), json!({"alphabet": 19, "max_length_completed": completed_l, "contexts": 5, "documents": tally.parsed.load(Ordering::Relaxed) - before}));
-
-    // (d) operand-type space and the general query space (S-verif): frontend panics only
-    let uni = Universe { datasets: vec![], ..Universe::sverif() };
-    let sm = &uni.world.schema;
-    let cfg_e1 = qgen::GenCfg { allow: Some(vec!["E"]), e_names: Some(vec!["next", "one"]), e_contents: vec![0], recurse_depths: vec![2], naming_devs: false, ..Default::default() };
-    let mut seeds: Vec<qast::Query> = vec![qgen::skeleton()];
-    seeds.extend(qgen::enumerate(sm, &[qgen::skeleton()], 1, &cfg_e1).into_iter().skip(1).flatten());
-    let mut cfg3 = CorpusCfg::new(1);
-    cfg3.seeds = seeds;
-    cfg3.gen = qgen::GenCfg { allow: Some(vec!["Pf", "Pt", "Fcf", "Fct"]), full_menus: true, naming_devs: false, ..Default::default() };
-    cfg3.max_arg_maps = 0;
-    cfg3.ir_var_types_fallback = true;
-    let on_panic = |text: &str, p: &crate::common::PanicRec| {
-        tally.panics.fetch_add(1, Ordering::Relaxed);
-        ctx.fail(&p.key(), &format!("frontend panicked: {}", p.message.lines().next().unwrap_or("")), json!({"schema_id": "S-verif", "query_text": text, "generator": "enumerated-query-space", "observed": p.to_json(), "expected": "Ok or a typed error"}));
-    };
-    let s_ops = corpus::drive(ctx, &uni, &cfg3, &|_| {}, &|_| {}, &on_panic);
-    let mut cfg4 = CorpusCfg::new(ctx.tier.pick(2, 3));
-    cfg4.gen.wide_filters = true;
-    cfg4.max_arg_maps = 0;
-    let s_gen = corpus::drive(ctx, &uni, &cfg4, &|_| {}, &|_| {}, &on_panic);
-    // error paths: valid structure (two edges + up to two further deviations) with one or two
-    // invalidating deviations (name collisions, ill-typed filter, undefined tag, unknown property)
-    // placed before / between / after it
-    // seeds: two-edge structures + one tag / count deviation (valid); then exactly one invalidating deviation
-    let base5 = corpus::structures_cfg(&uni, 1, vec!["Pt", "Fct", "Fco"], 2);
-    let seeds5: Vec<qast::Query> = qgen::enumerate(sm, &base5.seeds, 1, &base5.gen).into_iter().flatten().collect();
-    let mut cfg5 = CorpusCfg::new(1);
-    cfg5.seeds = seeds5;
-    cfg5.gen = qgen::GenCfg { allow: Some(vec![]), invalid_devs: true, naming_devs: false, ..Default::default() };
-    cfg5.max_arg_maps = 0;
-    let s_inv = corpus::drive(ctx, &uni, &cfg5, &|_| {}, &|_| {}, &on_panic);
-    let mut cfg6 = CorpusCfg::new(ctx.tier.pick(2, 3));
-    cfg6.gen.invalid_devs = true;
-    cfg6.gen.naming_devs = false;
-    cfg6.max_arg_maps = 0;
-    cfg6.keep = Some(std::sync::Arc::new(|q: &qast::Query| {
-        let t = q.text();
-        t.contains("undefined_tag") || t.contains("nope") || t.contains("$bad") || {
-            // a duplicated explicit name
-            let mut names: Vec<&str> = t.split("(name: \"").skip(1).filter_map(|x| x.split('"').next()).collect();
-            let n = names.len();
-            names.sort();
-            names.dedup();
-            names.len() < n
-        }
-    }));
-    let s_inv2 = corpus::drive(ctx, &uni, &cfg6, &|_| {}, &|_| {}, &on_panic);
-    tally.parsed.fetch_add(s_inv.queries_done + s_inv2.queries_done, Ordering::Relaxed);
-    tally.ok.fetch_add(s_inv.compiled + s_inv2.compiled, Ordering::Relaxed);
-    tally.err.fetch_add(s_inv.rejected + s_inv2.rejected, Ordering::Relaxed);
-    per_generator.insert("e-invalidated-structures".into(), s_inv.to_json());
-    per_generator.insert("e-invalidated-general-space".into(), s_inv2.to_json());
-    capped |= s_inv.capped || s_inv2.capped;
-    tally.parsed.fetch_add(s_ops.queries_done + s_gen.queries_done, Ordering::Relaxed);
-    tally.ok.fetch_add(s_ops.compiled + s_gen.compiled, Ordering::Relaxed);
-    tally.err.fetch_add(s_ops.rejected + s_gen.rejected, Ordering::Relaxed);
-    per_generator.insert("d-operand-type-space".into(), s_ops.to_json());
-    per_generator.insert("d-general-query-space".into(), s_gen.to_json());
-    capped |= s_ops.capped || s_gen.capped;
 
     let mut c = cov();
     c.insert("evaluations".into(), json!(tally.parsed.load(Ordering::Relaxed)));
